@@ -16,7 +16,7 @@ TECHNIQUE = ('runtime monitoring: offline checker of schedule laws over recorded
 LEVEL_TEXT = ('Held on the explored configurations: all 16 presence combinations of interval/sharp/idle/initial_delay (numeric and callable delays), handler durations below, '
               'equal to, above and at exact multiples of the interval, outcome scripts with temporary/arbitrary/permanent errors and backoffs, object edits at random and at '
               'deadline-aligned instants (tick time, idle deadline +-1us). Times are compared exactly (1e-4 tolerance for the 1us request latency).')
-LEVEL_NOTE = ('After a permanent failure the documentation says the timer stops, the code starts a fresh tick one interval later; the property does not decide, both are accepted. '
+LEVEL_NOTE = ('After a failure for good the timer stops (docs; kopf since fix b8d214f); C10 does not decide it, so a fresh tick one interval later would also be accepted here (C11 rejects it). '
               'Idle postponement is checked as a safety bound only (no start within idle after the last essential change was delivered).')
 RULE = ("one timer per run (sometimes two objects); configuration from the 16-combination grid x durations x scripts x edit timings; non-trivial = at least 3 invocations; distinct = hash of "
         "(configuration, rounded start/end sequence)")
